@@ -1,6 +1,7 @@
 package vc
 
 import (
+	"time"
 	"fmt"
 	"go/token"
 	"go/types"
@@ -219,6 +220,7 @@ type Exec struct {
 	initRunning *ssa.Package
 	rootEnv    *SpecEnv
 	prune      bool               // second attempt after a path explosion: branches are checked for feasibility
+	pruneStart time.Time
 	forks      int                // symbolic branches taken so far in this function
 	regexObjs  map[int]string     // compiled regular expressions (object id -> pattern)
 	cryptoObjs map[int]*cryptoObj // modelled cipher / hash objects (object id -> immutable part)
